@@ -256,9 +256,12 @@ def cases(tier):
     for label, a, b in entity_programs():
         yield {'label': label, 'nodes': b, 'entity_nodes': a, 'tier': tier}
     # entity equivalences
-    for mods in [['html_quote']] + [[m] for m in MODS] + \
-            [list(p) for p in itertools.permutations(MODS[5:10], 2)]:
-        yield {'label': 'entity', 'mods': mods}
+    for name in ('x', 'sequence-item', 'a-b-c', 'x_y', 'x.y', 'q-', 'x9'):
+        for mods in [['html_quote']] + [[m] for m in MODS] + \
+                [list(p) for p in itertools.permutations(MODS[5:10], 2)]:
+            if name != 'x' and len(mods) == 2 and mods[0] != 'lower':
+                continue
+            yield {'label': 'entity', 'mods': mods, 'name': name}
 
 
 NAMESPACES = [
@@ -389,20 +392,36 @@ def run(case):
 def run_entity(res, case):
     from DocumentTemplate import HTML
     mods = case['mods']
+    name = case.get('name', 'x')
     if mods == ['html_quote']:
-        ent = '&dtml-x;'
+        ent = '&dtml-%s;' % name
     else:
-        ent = '&dtml.%s-x;' % '.'.join(mods)
-    tag = '<dtml-var x %s>' % ' '.join(mods)
+        ent = '&dtml.%s-%s;' % ('.'.join(mods), name)
+    tag = '<dtml-var %s %s>' % (name, ' '.join(mods))
     a, b = HTML('a%sb' % ent), HTML('a%sb' % tag)
-    a.cook()
-    b.cook()
+    try:
+        b.cook()
+    except Exception:
+        # the tag form is not valid for this name: nothing to compare
+        res.outcome = 'entity:tag-form-invalid'
+        return res
+    try:
+        a.cook()
+    except Exception as e:
+        res.violate('same-program', 'compiled:entity:cook-error',
+                    {'entity': ent, 'tag': tag, 'exception': repr(e)[:200]})
+        res.outcome = 'entity'
+        return res
     fa, fb = fingerprint(a._v_blocks), fingerprint(b._v_blocks)
     if fa != fb:
         res.violate('same-program', 'compiled:entity',
                     {'entity': ent, 'tag': tag,
                      'difference': (first_difference(fa, fb) or '')[:400]})
+    extra = {'sequence-item': ['lit', 'S<i'], 'a-b-c': ['lit', 'A&c'],
+             'x_y': ['lit', 'u_v'], 'x.y': ['lit', 'dot'], 'q-': ['lit', 'Q'],
+             'x9': ['lit', '9']}
     for ns in NAMESPACES:
+        ns = dict(ns, **extra)
         oa, ob = observe(a, ns), observe(b, ns)
         if oa != ob:
             res.violate('same-rendering', 'rendered:entity',
